@@ -80,7 +80,7 @@ impl Sink {
 
 /// Run `f` once per element of `first` (in parallel), merge, and fold into the report under
 /// the section `name`. Returns the merged counters for callers that post-process them.
-pub fn run<A: Sync>(rep: &mut Report, name: &str, first: &[A], f: impl Fn(&A, &mut Sink) + Sync) -> BTreeMap<String, u64> {
+pub fn run<A: Sync + std::fmt::Debug>(rep: &mut Report, name: &str, first: &[A], f: impl Fn(&A, &mut Sink) + Sync) -> BTreeMap<String, u64> {
     let n = first.len();
     let slots: Vec<Mutex<Option<Result<Sink, String>>>> = (0..n).map(|_| Mutex::new(None)).collect();
     let next = AtomicUsize::new(0);
@@ -122,6 +122,15 @@ pub fn run<A: Sync>(rep: &mut Report, name: &str, first: &[A], f: impl Fn(&A, &m
     }
     for (k, c) in &total.per_key {
         *rep.per_key.entry(k.clone()).or_insert(0) += *c;
+    }
+    if total.samples.is_empty() && total.evaluations > 0 {
+        // no tuple was sampled by the checker: show the first and last values of the sharding coordinate
+        // (every shard enumerates the full product of the remaining coordinates)
+        for a in [first.first(), first.last()].into_iter().flatten() {
+            let mut d = format!("{a:?}");
+            d.truncate(300);
+            total.samples.push(json!({ "first_coordinate": d, "note": "full product of the remaining coordinates enumerated under this value" }));
+        }
     }
     for s in total.samples {
         rep.sample(json!({ "section": name, "case": s }));
